@@ -177,11 +177,23 @@ def perturbation(rng: random.Random, pool: list, enabled: list) -> dict:
     if kind == "CLI_INPROC":
         small = [p for p in pool if not p["large"]]
         m = rng.choice(small)
-        if rng.random() < 0.4:
+        r = rng.random()
+        verbose = ["-v"] if rng.random() < 0.3 else []
+        if r < 0.25:
             return {"op": "CLI_INPROC", "argv": ["list-schemes"]}
-        return {"op": "CLI_INPROC", "m": m["id"],
-                "argv": ["ode2py", "{model}", "-o", "{scratch}/cli_out.py", "-f", "none", "--scheme",
-                         rng.choice(MEMBERS)]}
+        if r < 0.6:
+            return {"op": "CLI_INPROC", "m": m["id"],
+                    "argv": ["ode2py", "{model}", "-o", "{scratch}/cli_out.py", "-f", rng.choice(["none", "none", "black"]),
+                             "--scheme", rng.choice(MEMBERS)] + (["-b", "jax"] if rng.random() < 0.2 else []) + verbose}
+        if r < 0.8:
+            return {"op": "CLI_INPROC", "m": m["id"],
+                    "argv": ["ode2c", "{model}", "-o", "{scratch}/cli_out", "-f", "none", "--to", rng.choice([".c", ".h"]),
+                             "--delta", "0.001", "--scheme", "generalized_rush_larsen"] + verbose}
+        if r < 0.9:
+            return {"op": "CLI_INPROC", "m": m["id"],
+                    "argv": ["convert", "{model}", "--to", rng.choice([".py", ".c"]), "-o", "{scratch}/cli_conv", "--remove-unused"] + verbose}
+        return {"op": "CLI_INPROC",
+                "argv": ["cellml2ode", "/repo/tests/cellml_files/noble_1962.cellml", "-o", "{scratch}/noble.ode"] + verbose}
     if kind == "LOAD_OTHER":
         m = rng.choice([p for p in pool if not p["large"]])
         return {"op": "LOAD", "h": "bait%d" % rng.randrange(10 ** 6), "m": m["id"],
